@@ -363,9 +363,11 @@ fn btpe<R: Rng + ?Sized>(btpe: Btpe, flipped: bool, rng: &mut R) -> u64 {
         } else {
             -((m - y) as f64)
         };
+        // f1 / x1 = 1 - (y - m) / x1 and z / w = 1 + (y - m) / w: the two leading terms nearly cancel,
+        // and for n above ~2^53 the quotients themselves round to 1, so use ln_1p of the exact difference.
         if alpha
-            > x_m * (f1 / x1).ln()
-                + (((n - m) as f64) + 0.5) * (z / w).ln()
+            > x_m * (-y_sub_m / x1).ln_1p()
+                + (((n - m) as f64) + 0.5) * (y_sub_m / w).ln_1p()
                 + y_sub_m * (w * btpe.p / (x1 * q)).ln()
                 // We use the signs from the GSL implementation, which are
                 // different than the ones in the reference. According to
